@@ -11,6 +11,7 @@ const vpAlphabet = "123456789ABCDEFGHJKLMNPQRSTUVWXYZabcdefghijkmnopqrstuvwxyz"
 //vp:symindex 128
 //vp:unwind 64
 //vp:maxvalues 64
+//vp:timeout 180000
 func vpH_C15_EncodeSpec() {
 	max := 2
 	if vpThorough() {
